@@ -972,3 +972,41 @@ MUTANTS += [
  dict(name='c04-fq6-is-zero-skips-c2', prop='C04', expect='R-PRED',
       edits=[('src/bls12_381/fq6.cpp', '        return c0_zero && c1_zero && c2_zero;', '        return c0_zero && c1_zero;')]),
 ]
+MUTANTS += [
+ dict(name='seed-C01-miller-loop-merge-extra-squaring', prop='C01', patch='seeded/C01-miller-loop-merge-extra-squaring/patch.diff', expect='ccl|schedule'),
+ dict(name='seed-C01-on-C08-silent', prop='C08', benign=True, expect='', patch='seeded/C01-miller-loop-merge-extra-squaring/patch.diff'),
+ dict(name='c01-benign-merged-last-doubling', prop='C01', benign=True, expect='', patch='selftest/fixes/benign-c01-merged-last-doubling.patch'),
+ dict(name='c08-benign-merged-last-doubling', prop='C08', benign=True, expect='', patch='selftest/fixes/benign-c01-merged-last-doubling.patch'),
+ dict(name='seed-C07-decompose-fold-fifth-digit', prop='C07', patch='seeded/C07-decompose-fold-fifth-digit-incomplete-borrow/patch.diff', expect='PowersOfX::decompose'),
+ dict(name='seed-C08-miller-loop-compacts-pair-arrays', prop='C08', patch='seeded/C08-miller-loop-compacts-pair-arrays/patch.diff', expect='VIOLATION property=C08'),
+ dict(name='seed-C10-hash-reduce-branch-swap', prop='C10', patch='seeded/C10-hash-reduce-branch-swap-boundary/patch.diff', expect='VIOLATION property=C10'),
+ dict(name='seed-C12-joint-walk-unguarded-read', prop='C12', patch='seeded/C12-nondelegable-qualifykey-joint-walk-unguarded-read/patch.diff', expect='R-INBOUNDS'),
+ dict(name='seed-C12-joint-walk-on-C11', prop='C11', patch='seeded/C12-nondelegable-qualifykey-joint-walk-unguarded-read/patch.diff', expect='R-INBOUNDS'),
+ dict(name='c12-benign-joint-walk-guarded', prop='C12', benign='noverdict', expect='', patch='selftest/fixes/benign-c12-joint-walk-guarded.patch'),
+ dict(name='c11-benign-joint-walk-guarded', prop='C11', benign='noverdict', expect='', patch='selftest/fixes/benign-c12-joint-walk-guarded.patch'),
+ dict(name='seed-C16-lqibe-encrypt-shared-inversion', prop='C16', patch='seeded/C16-lqibe-encrypt-shared-inversion/patch.diff', expect='VIOLATION property=C16'),
+ dict(name='seed-C20-lqibe-static-hash-buffer', prop='C20', patch='seeded/C20-lqibe-static-hash-buffer/patch.diff', expect='VIOLATION property=C20'),
+ # ---- decomposition identities (R-WORDALG/c++)
+ dict(name='c07-decompose-c3-from-second-dword', prop='C07', expect='PowersOfX::decompose',
+      edits=[('src/bls12_381/decomposition.cpp', 'c3.std_dwords[0] = quotient.std_dwords[0];', 'c3.std_dwords[0] = quotient.std_dwords[1];')]),
+ dict(name='c07-decompose-unreduced-on-large-path', prop='C07', expect='PowersOfX::decompose',
+      edits=[('src/bls12_381/decomposition.cpp', 'div_exp_coeff(this->c[0], this->c[1], this->c[2], this->c[3], a);', 'div_exp_coeff(this->c[0], this->c[1], this->c[2], this->c[3], y);')]),
+ dict(name='c07-benign-decompose-compare-le', prop='C07', benign=True, expect='',
+      edits=[('src/bls12_381/decomposition.cpp', 'if (BigInt<256>::compare(y, Fr::p_value) == -1) {', 'if (BigInt<256>::compare(y, Fr::p_value) != 1) {')]),
+ dict(name='c06-decompose-second-division-of-y', prop='C06', expect='PowersOfX::decompose',
+      edits=[('src/bls12_381/decomposition.cpp', 'c1.std_dwords[0] = quotient.divide_std_dword<x>(quotient);', 'c1.std_dwords[0] = quotient.divide_std_dword<x>(y);')]),
+ dict(name='c06-glv-c0-sign-wrong', prop='C06', expect='decompose_lambda',
+      edits=[('src/bls12_381/curve_fast_multiply.cpp', 'c0_neg = true;\n             c0.subtract(product, k);', 'c0_neg = false;\n             c0.subtract(product, k);')]),
+ dict(name='c06-glv-c1-sign-wrong', prop='C06', expect='decompose_lambda',
+      edits=[('src/bls12_381/curve_fast_multiply.cpp', 'c1_neg = true;\n             c1.copy(rounded_b2);', 'c1_neg = false;\n             c1.copy(rounded_b2);')]),
+ dict(name='c06-glv-wrong-lattice-constant', prop='C06', expect='decompose_lambda',
+      edits=[('src/bls12_381/curve_fast_multiply.cpp', 'product.multiply(rounded_b2, g1_v2_1);', 'product.multiply(rounded_b2, g1_v1_2);')]),
+ dict(name='c06-glv-round-b1-not-added', prop='C06', expect='decompose_lambda',
+      edits=[('src/bls12_381/curve_fast_multiply.cpp', 'if (rounded_b1 == 1) {', 'if (rounded_b1 == 2) {')]),
+ dict(name='c06-glv-compare-direction', prop='C06', expect='decompose_lambda',
+      edits=[('src/bls12_381/curve_fast_multiply.cpp', 'if (BigInt<256>::compare(k, product) == -1) {', 'if (BigInt<256>::compare(k, product) == 1) {')]),
+ dict(name='c06-glv-c1-subtract-swapped', prop='C06', expect='decompose_lambda',
+      edits=[('src/bls12_381/curve_fast_multiply.cpp', 'c1.subtract(v1_2_wide, rounded_b2_wide);', 'c1.subtract(rounded_b2_wide, v1_2_wide);')]),
+ dict(name='c06-benign-glv-rounding-tie', prop='C06', benign=True, expect='',
+      edits=[('src/bls12_381/curve_fast_multiply.cpp', '} else if (BigInt<256>::compare(two_k, Fr::p_value) == -1) {', '} else if (BigInt<256>::compare(two_k, Fr::p_value) != 1) {')]),
+]
